@@ -181,6 +181,8 @@ def run(ctx):
         i.rule = i.rule.replace("C06.", "C18.")
     ctx.floors = {k: v for k, v in ctx.floors.items() if k.startswith("C18")}
     rule_print(ctx, py)
+    from .. import lints
+    lints.run(ctx, "C18", ctx.py, ["units"])
     ctx.assume("NOT decided: the tokeniser's behaviour on arbitrary and malformed text (doubled / dangling separators, "
                "misplaced exponents, embedded blanks, two units of one base kind), and the bit-identical float round "
                "trip; these quantify over arbitrary strings and are outside a sound static argument in reach")
